@@ -639,7 +639,8 @@ def run_platforms(exe, plats, workdir, tag, per_engine=16):
             if r.crash:
                 m = re.search(r"sig=(\d+)", r.crash)
                 sig = int(m.group(1)) if m else 0
-                msg = re.sub(r"\s+", " ", re.sub(r"^sig=\d+ exit=-?\d+ ?", "", r.crash))[:200]
+                msg = re.sub(r"\s+", " ", re.sub(r"^sig=\d+ exit=-?\d+ ?", "", r.crash))
+                msg = re.sub(r"0x[0-9a-fA-F]+|\b\d{4,}\b", "#", msg)[:120]      # no addresses / pids in a case signature
                 rule = "hang" if sig in (14, 24, 9) else "crash"
                 out.append((i, (P, 0, False, (rule, "-", "signal %d %s" % (sig, msg) if rule == "crash" else "route_to does not return"))))
             elif r.builderr:
@@ -672,9 +673,10 @@ def all_platforms(ctx):
                   "routes, gateway of the inner zone nested two levels down or a router of its own)",
                   gen_depth3(LEAF, [(a, c) for a in INNER for c in INNER], v3)))
     else:
-        b.append(("depth 3: root(inner(leaf,leaf),leaf), inner kinds full/floyd/star, leaf kinds full/star, nested gateway",
+        b.append(("depth 3: root(inner(leaf,leaf),leaf), inner kinds full/floyd/star, leaf kinds full/star, gateway of the inner "
+                  "zone in a sub-zone (or its own router for star inner zones)",
                   gen_depth3(("full", "star"), [(a, c) for a in ("full", "floyd", "star") for c in ("full", "floyd", "star")],
-                             [(1, 0, 1, "h"), (0, 0, 1, "r")])))
+                             [(1, 0, 1, "h"), (0, 0, 1, "r"), (1, 0, 0, "r")])))
     return b
 
 
